@@ -142,6 +142,8 @@ impl Core {
       // code found in RAM. Only ROM code should be recompiled, the rest
       // should be interpreted.
       if can_dynarec(ip) {
+        // translations of the switchable ROM area are cached per bank
+        self.cache.set_rom_bank(self.memory.get_rom_bank());
         let address = {
           let found_address = self.cache.get_address_for_ip(ip);
           if let Some(addr) = found_address {
